@@ -20,6 +20,7 @@ pub fn relpath() -> Report {
         let mut dir: Vec<&str> = b[..b.len() - 1].to_vec();
         let mut ok = true;
         if rel != "." { for comp in rel.split('/') { match comp { "" => {}, ".." => { if dir.pop().is_none() { ok = false; } }, c => dir.push(c) } } }
+        crate::witness(rel.starts_with("../") && !rel.ends_with("../"));
         if !ok || dir != *t { return r("relpath", bound, cases, Some(format!("make_relative_path({base:?}, {target:?}) = {rel:?}; resolved against the base directory this gives {:?}, not the target", dir.join("/")))); }
         if rel == "." && *t != b[..b.len() - 1] { return r("relpath", bound, cases, Some(format!("make_relative_path({base:?}, {target:?}) = \".\" although the target is not the base directory"))); }
     } } } }
@@ -28,7 +29,7 @@ pub fn relpath() -> Report {
 
 // ------------------------------------------------------------------ C18
 pub fn discover() -> Report {
-    let bound = "texts of <= 4 lines drawn from {code, both comment forms, indented / mid-line look-alikes, empty URL}, \\n and \\r\\n endings, with/without final newline; data URLs of maps with 0..2 tokens, placed in a comment and rediscovered; detection on serialised regular / index / Hermes maps";
+    let bound = "texts of <= 4 lines drawn from {code, both comment forms, indented / mid-line look-alikes, empty URL}, \\n and \\r\\n endings, with/without final newline; data URLs of maps with 0..2 tokens, placed in a comment and rediscovered; detection (slice and reader) on the serialisation of regular maps (3 sources, every contents subset incl. null entries, names, root, ignore list, range token on/off), index maps over them with an unresolved section, Hermes maps with null / partial metadata and contents";
     let mut cases = 0u64;
     let lines: Vec<(&str, Option<(&str, bool)>)> = vec![
         ("var a = 1;", None), ("//# sourceMappingURL=foo.js.map", Some(("foo.js.map", false))), ("//@ sourceMappingURL=old.map  ", Some(("old.map", true))),
@@ -42,6 +43,7 @@ pub fn discover() -> Report {
         let want = t.iter().filter_map(|&i| lines[i].1).next();
         let got = match guarded(|| locate_sourcemap_reference_slice(s.as_bytes())) { Ok(Ok(g)) => g, o => return r("discover", bound, cases, Some(format!("locate_sourcemap_reference_slice({s:?}) = {:?}", o.map(|x| x.map(|_| ()))))) };
         let g2 = got.as_ref().map(|x| match x { SourceMapRef::Ref(u) => (u.as_str(), false), SourceMapRef::LegacyRef(u) => (u.as_str(), true) });
+        crate::witness(want.is_some());
         if g2 != want { return r("discover", bound, cases, Some(format!("text {s:?}: discovered {g2:?}, the first line beginning with a sourceMappingURL comment gives {want:?}"))); }
     } } }
     for ntok in 0..3u32 { for root in [None, Some("r")] { for pad in 0..4usize { for blank in ["", " "] {
@@ -65,6 +67,37 @@ pub fn discover() -> Report {
         let mut out = vec![]; sm.to_writer(&mut out).ok();
         if !is_sourcemap_slice(&out) { return r("discover", bound, cases, Some(format!("serialised map not recognised by is_sourcemap_slice: {}", String::from_utf8_lossy(&out)))); }
     } } } }
+    // every serialised map, index or Hermes map is recognised by the detection predicate (slice and reader form)
+    {
+        use sourcemap::{is_sourcemap, RawToken, SourceMapHermes, SourceMapIndex, SourceMapSection};
+        let mut docs: Vec<(String, Vec<u8>)> = vec![];
+        for cmask in 0u32..8 { for with_names in [false, true] { for with_root in [false, true] { for ign in [false, true] { for rng in [false, true] {
+            let srcs: Vec<std::sync::Arc<str>> = vec!["a.js".into(), "b.js".into(), "c.js".into()];
+            let names: Vec<std::sync::Arc<str>> = if with_names { vec!["n".into()] } else { vec![] };
+            let toks: Vec<RawToken> = (0..3u32).map(|i| RawToken { dst_line: i / 2, dst_col: (i % 2) * 4, src_line: i, src_col: 1, src_id: i, name_id: if with_names { 0 } else { !0 }, is_range: rng && i == 1 }).collect();
+            let cts: Vec<Option<std::sync::Arc<str>>> = (0..3).map(|i| if cmask >> i & 1 == 1 { Some(format!("text {i}").into()) } else { None }).collect();
+            let mut sm = SourceMap::new(Some("out.js".into()), toks, names, srcs, Some(cts));
+            if with_root { sm.set_source_root(Some("root")); }
+            if ign { sm.add_to_ignore_list(1); }
+            let mut out = vec![]; sm.to_writer(&mut out).ok();
+            docs.push((format!("regular map, contents mask {cmask:03b}, names {with_names}, root {with_root}, ignore list {ign}, range token {rng}"), out));
+            if cmask % 3 == 1 && !with_root {
+                let idx = SourceMapIndex::new(Some("idx.js".into()), vec![SourceMapSection::new((0, 0), None, Some(DecodedMap::Regular(sm.clone()))), SourceMapSection::new((5, 0), Some("other.map".into()), None)]);
+                let mut o2 = vec![]; idx.to_writer(&mut o2).ok();
+                docs.push((format!("index map over the regular map (contents mask {cmask:03b}) plus an unresolved section"), o2));
+            }
+        } } } } }
+        for fm in ["null", "[{\"names\":[\"<global>\",\"f\"],\"mappings\":\"AAA,CCA\"}]"] { for sc in ["", ",\"sourcesContent\":[null,\"b();\"]", ",\"sourcesContent\":[\"a();\",null]"] {
+            let doc = format!("{{\"version\":3,\"sources\":[\"a.js\",\"b.js\"],\"names\":[],\"mappings\":\"AAAA,CCAA\",\"x_facebook_sources\":[{fm},null]{sc}}}");
+            match guarded(|| SourceMapHermes::from_slice(doc.as_bytes())) { Ok(Ok(h)) => { let mut o3 = vec![]; h.to_writer(&mut o3).ok(); docs.push((format!("Hermes map written back from {doc}"), o3)); }, o => return r("discover", bound, cases, Some(format!("Hermes document {doc} does not decode: {:?}", o.map(|x| x.map(|_| ()).map_err(|e| e.to_string()))))) }
+        } }
+        for (what, bytes) in &docs {
+            cases += 1;
+            if guarded(|| sourcemap::decode_slice(bytes)).ok().and_then(|x| x.ok()).is_none() { return r("discover", bound, cases, Some(format!("{what}: the library does not decode its own output {}", String::from_utf8_lossy(bytes)))); }
+            if !is_sourcemap_slice(bytes) { return r("discover", bound, cases, Some(format!("{what}: not recognised by is_sourcemap_slice: {}", String::from_utf8_lossy(bytes)))); }
+            if !is_sourcemap(&bytes[..]) { return r("discover", bound, cases, Some(format!("{what}: not recognised by is_sourcemap (reader): {}", String::from_utf8_lossy(bytes)))); }
+        }
+    }
     r("discover", bound, cases, None)
 }
 
@@ -110,6 +143,7 @@ pub fn sourceview() -> Report {
             for (c, s) in triples { cases += 1;
                 let g = match guarded(|| sv.get_line_slice(li as u32, c, s).map(|x| x.to_string())) { Ok(g) => g, Err(p) => return r("sourceview", bound, cases, Some(format!("get_line_slice({li}, {c}, {s}) on line {line:?}: {p}"))) };
                 let w = ref_slice(line, c as u64, s as u64).map(|x| x.to_string());
+                crate::witness(w.as_ref().map_or(false, |x| !x.is_empty()));
                 if g != w { return r("sourceview", bound, cases, Some(format!("line {line:?}: get_line_slice({li}, {c}, {s}) = {g:?}, expected {w:?}"))); } } }
     }
     r("sourceview", bound, cases, None)
@@ -132,7 +166,7 @@ fn text_at(line: &str, col: u32) -> Option<&str> {
     line[off..].split_whitespace().next().and_then(ident)
 }
 pub fn function_name() -> Report {
-    let bound = "5 minified programs (several functions per line, two lines, non-ASCII / astral characters before and inside identifiers, names that are prefixes of one another), tokens every 1 / 2 / 3 / 5 UTF-16 columns plus every word start (and past the end; never inside a surrogate pair), every start token x 9 candidate names; one 140-token line for the 128-token window";
+    let bound = "7 minified programs (several functions per line, two lines, non-ASCII / astral characters before and inside identifiers, names that are prefixes of one another), tokens every 1 / 2 / 3 / 5 UTF-16 columns plus every word start, and on word starts only (so that `function NAME` token pairs exist) (and past the end; never inside a surrogate pair), names starting with / consisting of '_' and '$', every start token x 22 candidate names; one 140-token line for the 128-token window";
     let mut cases = 0u64;
     let programs: Vec<Vec<&str>> = vec![
         vec!["function fn1(){} var é2=function g(){}", "function fn(){}function fn1 (){}"],
@@ -141,12 +175,13 @@ pub fn function_name() -> Report {
         vec!["function\u{200d}f(){}", "function f\u{200d}g(){} function   h(){}"],
         vec!["", "function a(){}"],
         vec!["function é(){} function fé (){}", "var λ=function ü(){}"],
+        vec!["function _(){}function _a(){}function a_(){}", "function $(){} function $1(){} function _0x1f(){}"],
     ];
-    let names = ["fn1", "fn", "g", "é2", "λx", "$_", "f\u{200d}g", "function", "1x", "", "h", "a", "é", "fé", "ü", "λ"];
+    let names = ["fn1", "fn", "g", "é2", "λx", "$_", "f\u{200d}g", "function", "1x", "", "h", "a", "é", "fé", "ü", "λ", "_", "_a", "a_", "$", "$1", "_0x1f"];
     for prog in &programs {
         let text = prog.join("\n");
         let sv = SourceView::new(text.as_str().into());
-        for stride in [1u32, 2, 3, 5] {
+        for stride in [1u32, 2, 3, 5, 1000] {
         let mut b = SourceMapBuilder::new(None);
         let mut pos = vec![];
         for (l, line) in prog.iter().enumerate() { let n16 = line.encode_utf16().count() as u32; let mut c = 0; while c <= n16 + 1 { pos.push((l as u32, c)); c += stride; }
@@ -166,6 +201,7 @@ pub fn function_name() -> Report {
             let mut want = None;
             if valid { let lo = start.saturating_sub(127);
                 for j in (lo..=start).rev() { if texts[j] == Some(name) && j > lo && j >= 1 && texts[j - 1] == Some("function") { want = Some(format!("orig{j}")); break; } } }
+            crate::witness(want.is_some() && name != "function");
             if got != want { return r("function_name", bound, cases, Some(format!("program {prog:?}, tokens every {stride} columns: resolving {name:?} from token #{start} at (line,col) {:?} gives {got:?}, expected {want:?}", pos[start]))); }
         } }
         }
@@ -213,7 +249,7 @@ pub fn ram_bundle() -> Report {
         let rb = match guarded(|| RamBundle::parse_indexed_from_slice(&bytes)) { Ok(Ok(b)) => b, o => return r("ram_bundle", bound, cases, Some(format!("{ctx}: parse failed {:?}", o.map(|x| x.map(|_| ()).map_err(|e| e.to_string()))))) };
         if rb.module_count() != n { return r("ram_bundle", bound, cases, Some(format!("{ctx}: module_count {} != {n}", rb.module_count()))); }
         if rb.startup_code().ok() != Some(&startup[..]) { return r("ram_bundle", bound, cases, Some(format!("{ctx}: startup code {:?}", rb.startup_code().ok()))); }
-        for i in 0..n { let g = rb.get_module(i).map(|m| m.map(|m| m.data().to_vec())); let w = mods[t[i]].clone();
+        for i in 0..n { let g = rb.get_module(i).map(|m| m.map(|m| m.data().to_vec())); let w = mods[t[i]].clone(); crate::witness(w.is_some());
             match g { Ok(x) if x == w => {}, o => return r("ram_bundle", bound, cases, Some(format!("{ctx}: module {i} = {:?}, expected {w:?}", o.map_err(|e| e.to_string())))) } }
         if rb.get_module(n).is_ok() { return r("ram_bundle", bound, cases, Some(format!("{ctx}: id {n} past the table is not an error"))); }
         let ids: Vec<usize> = rb.iter_modules().filter_map(|m| m.ok()).map(|m| m.id()).collect();
